@@ -396,10 +396,12 @@ func (g *vGen) forge(from, to int) *vMsg {
 			for i := len(refs) - 1; i >= 0 && len(l) < 5; i-- {
 				if t := s.u.byRef[refs[i]]; t != nil {
 					pl := g.plName(t.idx)
-					if r.Intn(4) == 0 {
+					empty := false
+					if r.Intn(3) == 0 {
 						pl = ""
+						empty = r.Intn(2) == 0 // absent vs present-but-empty payload field
 					}
-					l = append(l, vNetTx{I: t.idx, Pl: pl})
+					l = append(l, vNetTx{I: t.idx, Pl: pl, Empty: empty})
 				}
 			}
 			return &vMsg{T: "tl", C: &cid, Num: 1, Total: 3, Txs: l}
